@@ -166,3 +166,14 @@ def two_stage_pipeline(n, with_source=True):
   a = stage_a(n) if with_source else transform.TreeTransform.new(name='a').apply(fn=add100)
   b = transform.TreeTransform.new(name='b').apply(fn=inc).aggregate(fn=CollectInPlace())
   return a.chain(b)
+
+
+import threading as _threading
+
+GATE = _threading.Event()
+
+
+def gated_add100(x):
+  """add100 whose evaluation blocks until the harness opens GATE (an answer that arrives at a chosen moment)."""
+  GATE.wait(10)
+  return x + 100
